@@ -14,6 +14,9 @@ TRUSTED = [
 ASSUMPTIONS = [
     "statement granularity = CPython `line` trace events; pre-emption inside a statement (bytecode level) and the GIL hand-off are not modelled",
     "no mutation of an rruleset while iterators are live (that is C10's history domain)",
+    "the underlying generator (`self._iter()`) NEVER RAISES anything but StopIteration: in the model `next(gen)` yields the next value of a finite "
+    "list or ends. When it does raise (e.g. a set with a naive and an aware date) the cached object differs from the uncached one afterwards: "
+    "known finding D-C11-genraise (oracle case generator_raises)",
     "query methods are paused only at their first statement (the fast-path test) and inside __iter__/_iter_cached; their other statements touch only thread-local state",
 ]
 RULE = ("schedules: (a) every next()-interleaving with <= 2 (thorough 3) switches of 2-3 iterators over src lengths 0,1,9,10,11,19,20,21; "
@@ -184,6 +187,140 @@ def first_diff(a, b):
     return "length %d vs %d: tail %s" % (len(ta), len(tb), ",".join(ta[-6:]))
 
 
+# ------------------------------------------------------------------ nested cached objects (sets over cached members)
+
+def nested_specs(ctx, rng):
+    """[(member sequences, sets [(inc slots, exc slots)], jobs [(obj, query)], segments)]
+    slot = ('m', k) cached member k | ('p', [ints]) plain dates.  Member values are globally distinct (residues mod 7)
+    so that the heap order is determined by the values alone."""
+    out = []
+    A = ("all",)
+
+    def seq(m, n):
+        return [70 * k + 7 * m + 1 for k in range(n)]
+    lens = [0, 1, 3, 9, 10, 11, 15, 21]
+    # the shape of the C11D report: one cached set over one cached rule, one thread
+    for n in lens:
+        out.append(([seq(0, n)], [([("m", 0)], [])], [(1, A)], []))
+    # set + direct iteration of the member, every pre-emption point of either
+    full = ctx.tier == "thorough" or ctx.escalated
+    for n in (3, 11):
+        K = 200 if n == 11 else 110
+        for k0 in (range(0, K, 1 if full else 9)):
+            out.append(([seq(0, n)], [([("m", 0)], [])], [(1, A), (0, A)], [(0, k0), (1, None)]))
+            out.append(([seq(0, n)], [([("m", 0)], [])], [(1, A), (0, A)], [(1, k0 % 60), (0, None)]))
+    # the same cached rule in two sets, rrule + exrule roles, plain dates, queries; random schedules
+    for _ in range(ctx.budget(120, 2500)):
+        nm = rng.randint(1, 3)
+        ms = [seq(m, rng.choice(lens)) for m in range(nm)]
+        sets = []
+        for _s in range(rng.randint(1, 2)):
+            inc = [("p", sorted(rng.sample(range(3, 700, 7), rng.randint(0, 3))))] + [("m", rng.randrange(nm)) for _ in range(rng.randint(0, 2))]
+            exm = [("m", m) for m in range(nm) if ("m", m) not in inc and rng.random() < 0.4]
+            exc = [("p", sorted(rng.sample(range(1, 700, 7), rng.randint(0, 2))))] + exm
+            # at most one slot per member inside one heap (ties between equal streams are heapq's business, oracle-only)
+            inc = [inc[0]] + sorted(set(inc[1:]))
+            sets.append((inc, exc))
+        nobj = nm + len(sets)
+        T = rng.randint(1, 4)
+        jobs = []
+        for _j in range(T):
+            o = rng.randrange(nobj)
+            jobs.append((o, A if rng.random() < 0.6 else rrlib.random_query(rng, seq(0, 5))))
+        segs = [(rng.randrange(T), rng.choice([1, 2, 3, 5, 8, 13, 21, 34, 55, 89])) for _ in range(rng.randint(0, 10))]
+        out.append((ms, sets, jobs, segs))
+    return out
+
+
+def build_nested(ms, sets, share_member_objects=True):
+    """real objects: cached members (rrulesets of rdates: arbitrary sequences) and cached sets over them"""
+    from dateutil import rrule as R
+    members = [set_rule(L, True) for L in ms]
+    sobjs = []
+    for inc, exc in sets:
+        s = R.rruleset(cache=True)
+        for kind, v in inc:
+            if kind == "p":
+                for x in v:
+                    s.rdate(rrlib.to_dt(x))
+            else:
+                s.rrule(members[v])
+        for kind, v in exc:
+            if kind == "p":
+                for x in v:
+                    s.exdate(rrlib.to_dt(x))
+            else:
+                s.exrule(members[v])
+        sobjs.append(s)
+    return members + sobjs
+
+
+def nested_wire(ms, sets, jobs, segs, shared=0):
+    def slot(x):
+        return "m%d" % x[1] if x[0] == "m" else ilist(x[1])
+    w_m = "|".join(ilist(L) for L in ms) if ms else "-"
+    w_s = ";".join("+".join(slot(x) for x in inc) + "/" + "+".join(slot(x) for x in exc) for inc, exc in sets) if sets else "-"
+    w_q = ";".join("%d@%s" % (o, q_wire(q)) for o, q in jobs) if jobs else "-"
+    return "nest.run %s %s %s %d %s" % (w_m, w_s, w_q, shared, sched.seg_wire(segs))
+
+
+def expected_nested(ms, sets):
+    """what each object must yield: Python set algebra on the member sequences"""
+    exp = [list(L) for L in ms]
+    for inc, exc in sets:
+        I, E = set(), set()
+        for kind, v in inc:
+            I.update(v if kind == "p" else ms[v])
+        for kind, v in exc:
+            E.update(v if kind == "p" else ms[v])
+        exp.append(sorted(I - E))
+    return exp
+
+
+def corr_nested(ctx, rng, runs):
+    reqs, exp, meta = [], [], []
+    for ms, sets, jobs, segs in nested_specs(ctx, rng):
+        objs = build_nested(ms, sets)
+        distinct_before = len(set(id(o._cache_lock) for o in objs))
+        tr, states, st, res, nlocks = sched.run_nested(objs, jobs, segs)
+        reqs.append(nested_wire(ms, sets, jobs, segs))
+        exp.append("ok %s %s %s %s" % (tr, states, ";".join(st) if st else "-", ";".join(r.replace(" ", "_") for r in res) if res else "-"))
+        meta.append((ms, sets, jobs, segs))
+        runs.append({"kind": "nested", "ms": ms, "sets": [[list(map(list, a)), list(map(list, b))] for a, b in sets],
+                     "jobs": [[o, list(q)] for o, q in jobs], "segs": [list(x) for x in segs], "st": st, "res": res,
+                     "nobjs": len(objs), "nlocks": distinct_before})
+        ctx.count("nested_steps", tr.count(",") + 1)
+    got = ctx.driver(reqs)
+    for r, e, g, m in zip(reqs, exp, got, meta):
+        if e != g:
+            ctx.mismatch("nest.run", {"request": r[:1500]}, first_diff(e, g), first_diff(g, e))
+    ctx.traces += len(reqs)
+    ctx.count("corr_nested_schedules", len(reqs))
+
+
+def judge_nested(ctx, r):
+    ms, sets = r["ms"], [(a, b) for a, b in r["sets"]]
+    exp = expected_nested(ms, [([tuple(x) if x[0] == "m" else ("p", x[1]) for x in a], [tuple(x) if x[0] == "m" else ("p", x[1]) for x in b]) for a, b in sets])
+    jobs = [(o, tuple(q)) for o, q in r["jobs"]]
+    key = ("nested", repr(ms), repr(r["sets"]), repr(r["jobs"]), repr(r["segs"]))
+    ok = all(x == "done" for x in r["st"])
+    ctx.case(key, nontrivial=ok)
+    ctx.count("oracle_nested_schedules")
+    case = {"kind": "nested", "ms": ms, "sets": r["sets"], "jobs": r["jobs"], "segs": r["segs"]}
+    if r["nlocks"] != r["nobjs"]:
+        ctx.count("objects_sharing_a_lock")
+    if not ok:
+        ctx.violation("nested cached objects: runner(s) never finish under schedule %s: statuses %s (%d cached objects use %d distinct lock objects)"
+                      % (sched.seg_wire([tuple(x) for x in r["segs"]]), r["st"], r["nobjs"], r["nlocks"]), case, {"statuses": r["st"]})
+        return
+    for (o, q), got in zip(jobs, r["res"]):
+        want = py_query(exp[o], q)
+        if got != want:
+            ctx.violation("nested cached objects: %s on object %d got %s, set algebra on the members gives %s" % (q_wire(q), o, got, want),
+                          case, {"impl": got, "list": want})
+            return
+
+
 # ------------------------------------------------------------------ C12 histories through the machine
 
 def history_correspondence(ctx, rng, count):
@@ -212,6 +349,7 @@ def correspondence(ctx):
     runs = []
     corr_nexts(ctx, runs)
     corr_threads(ctx, rng, runs)
+    corr_nested(ctx, rng, runs)
     history_correspondence(ctx, rng, ctx.budget(200, 2000))
     ctx._c11_runs = runs
 
@@ -278,7 +416,7 @@ def oracle(ctx):
             L, tr, fin, res, st = run_thread_case(kind, n, qs, segs)
             runs.append({"kind": "threads", "rule": kind, "n": n, "L": L, "qs": [list(q) for q in qs], "segs": [list(s) for s in segs], "res": res, "st": st})
     for r in runs:
-        (judge_nexts if r["kind"] == "nexts" else judge_threads)(ctx, r)
+        {"nexts": judge_nexts, "threads": judge_threads, "nested": judge_nested}[r["kind"]](ctx, r)
     # a second, independent stream of random schedules (and, when escalated, the thorough budget)
     rng = ctx.subrng("oracle")
     for _ in range(ctx.budget(150, 4000)):
@@ -291,12 +429,41 @@ def oracle(ctx):
         L, tr, fin, res, st = run_thread_case(kind, n, qs, segs)
         judge_threads(ctx, {"rule": kind, "n": n, "L": L, "qs": [list(q) for q in qs], "segs": [list(s) for s in segs], "res": res, "st": st})
     free_running_smoke(ctx)
+    generator_raises(ctx)
     for r in runs:
         if r["kind"] == "threads" and len(r["qs"]) >= 3:
             ctx.sample({"rule": r["rule"], "n": r["n"], "queries": [q_wire(tuple(q)) for q in r["qs"]],
                         "schedule": sched.seg_wire([tuple(s) for s in r["segs"]]), "answers": r["res"], "statuses": r["st"]}, cap=4)
     ctx.sample({"kind": "nexts", "n": 13, "ops": "n1,n0 x14,n1 x14 (the schedule that dead-locked before fix a459cd4)",
                 "out": run_nexts_case("daily", 13, 2, ["n1"] + ["n0"] * 14 + ["n1"] * 14)[1]})
+
+
+def generator_raises(ctx):
+    """the underlying generator RAISES (a naive and an aware rdate cannot be ordered): the uncached set raises TypeError on every
+    operation; a cached one must behave the same.  The model assumes the underlying generator never raises (ASSUMPTIONS);
+    what the code does instead is known finding D-C11-genraise, accepted only in exactly its documented shape."""
+    from dateutil import rrule as R
+    import datetime as D
+
+    def outcomes(cache):
+        s = R.rruleset(cache=cache)
+        s.rdate(D.datetime(2020, 1, 1)); s.rdate(D.datetime(2020, 1, 2, tzinfo=D.timezone.utc))
+        out = []
+        for op in (lambda: list(s), lambda: list(s), lambda: list(s), lambda: s.count(), lambda: D.datetime(2020, 1, 1) in s):
+            try:
+                out.append(repr(op()))
+            except Exception as ex:
+                out.append(type(ex).__name__)
+        return out
+    want, got = outcomes(False), outcomes(True)
+    ctx.case(("generator-raises",), nontrivial=True)
+    ctx.count("generator_raises_case")
+    if got != want:
+        ctx.violation("the underlying generator raises: the uncached set gives %s on list, list, list, count, in; the cached one gives %s" % (want, got),
+                      {"kind": "genraise", "cached": got, "uncached": want}, None)
+
+
+GENRAISE_DOCUMENTED = ["TypeError", "TypeError", "[]", "None", "False"]
 
 
 def free_running_smoke(ctx):
@@ -325,7 +492,12 @@ def free_running_smoke(ctx):
         ctx.count("free_running_smoke")
 
 
-KNOWN = {}
+KNOWN = {
+    # accepted only in exactly the documented shape: first listing raises like the uncached set, the second raises TypeError from
+    # `i < self._len` (None), after that the object claims to be a complete EMPTY sequence with count() None
+    "D-C11-genraise": lambda v: v["case"].get("kind") == "genraise" and v["case"].get("cached") == GENRAISE_DOCUMENTED
+    and v["case"].get("uncached") == ["TypeError"] * 5,
+}
 
 
 def replay(ctx, payload):
@@ -342,5 +514,17 @@ def replay(ctx, payload):
         L, tr, fin, res, st = run_thread_case(c["rule"], c["n"], qs, segs)
         print("replay threads n=%d queries=%s schedule=%s -> statuses %s answers %s" % (c["n"], [q_wire(q) for q in qs], sched.seg_wire(segs), st, res))
         return all(s == "done" for s in st) and all(g == py_query(L, q) for q, g in zip(qs, res))
+    if c.get("kind") == "nested":
+        ms = c["ms"]
+        sets = [([tuple(x) if x[0] == "m" else ("p", x[1]) for x in a], [tuple(x) if x[0] == "m" else ("p", x[1]) for x in b]) for a, b in c["sets"]]
+        jobs = [(o, tuple(q)) for o, q in c["jobs"]]
+        segs = [tuple(x) for x in c["segs"]]
+        objs = build_nested(ms, sets)
+        nl = len(set(id(o._cache_lock) for o in objs))
+        tr, states, st, res, _ = sched.run_nested(objs, jobs, segs)
+        exp = expected_nested(ms, sets)
+        print("replay nested: %d cached objects, %d distinct lock objects; schedule %s -> statuses %s answers %s"
+              % (len(objs), nl, sched.seg_wire(segs), st, res))
+        return all(x == "done" for x in st) and all(g == py_query(exp[o], q) for (o, q), g in zip(jobs, res))
     print("replay: unsupported case")
     return False
